@@ -464,3 +464,85 @@ func leafSetKey(vs []ssa.Value) string {
 	sort.Strings(ks)
 	return strings.Join(ks, ",")
 }
+
+// srcAt is one way a value can come about: the defining leaf and the branch facts known to hold on that way.
+type srcAt struct {
+	leaf  ssa.Value
+	facts []flow.Fact
+}
+
+// sourcesWithFacts resolves v like deepDefs and keeps, for every leaf, the facts under which that leaf is the
+// value: the facts of the phi edge taken, and the facts at the return of an in-scope helper that produced it.
+func sourcesWithFacts(v ssa.Value, scope []*ssa.Function) []srcAt {
+	inScope := map[*ssa.Function]bool{}
+	for _, f := range scope {
+		inScope[f] = true
+	}
+	var out []srcAt
+	type key struct {
+		v ssa.Value
+		n int
+	}
+	seen := map[key]bool{}
+	var rec func(v ssa.Value, facts []flow.Fact, depth int)
+	rec = func(v ssa.Value, facts []flow.Fact, depth int) {
+		if v == nil || depth > 10 || seen[key{v, len(facts)}] {
+			return
+		}
+		seen[key{v, len(facts)}] = true
+		with := func(extra []flow.Fact) []flow.Fact {
+			return append(append([]flow.Fact{}, facts...), extra...)
+		}
+		switch x := v.(type) {
+		case *ssa.Phi:
+			for i, e := range x.Edges {
+				rec(e, with(flow.EdgeFacts(x.Block().Preds[i], x.Block())), depth+1)
+			}
+			return
+		case *ssa.ChangeType:
+			rec(x.X, facts, depth+1)
+			return
+		case *ssa.MakeInterface:
+			rec(x.X, facts, depth+1)
+			return
+		case *ssa.Call:
+			if sc := x.Common().StaticCallee(); sc != nil && sc.Blocks != nil && inScope[sc] && sc.Signature.Results().Len() == 1 {
+				for _, b := range sc.Blocks {
+					if ret, ok := b.Instrs[len(b.Instrs)-1].(*ssa.Return); ok {
+						rec(ret.Results[0], with(flow.FactsAt(b)), depth+1)
+					}
+				}
+				return
+			}
+		case *ssa.Extract:
+			if cl, ok := x.Tuple.(*ssa.Call); ok {
+				if sc := cl.Common().StaticCallee(); sc != nil && sc.Blocks != nil && inScope[sc] {
+					for _, b := range sc.Blocks {
+						if ret, ok := b.Instrs[len(b.Instrs)-1].(*ssa.Return); ok && x.Index < len(ret.Results) {
+							rec(ret.Results[x.Index], with(flow.FactsAt(b)), depth+1)
+						}
+					}
+					return
+				}
+			}
+		case *ssa.Parameter:
+			fn := x.Parent()
+			idx := -1
+			for i, p := range fn.Params {
+				if p == x {
+					idx = i
+				}
+			}
+			sites := callSitesOf(fn, scope)
+			if idx >= 0 && len(sites) == 1 && len(scope) > 0 && fn != scope[0] {
+				if args := sites[0].Common().Args; idx < len(args) {
+					rec(args[idx], facts, depth+1)
+					return
+				}
+			}
+		}
+		out = append(out, srcAt{v, facts})
+	}
+	rec(v, nil, 0)
+	return out
+}
